@@ -158,16 +158,26 @@ func (p *flowProto) genCacheFile(r *rand.Rand, n int, w *bufio.Writer) {
 			fmt.Fprintf(w, "%s %s %s\t\n", p.name, hx(addr), hx(append(hdr, p.tplSetBytes(t)...)))
 			emitted++
 		}
-		probes := func() {
-			// data for up to three announced templates, decoded against whatever cache is in force
-			for i := 0; i < 3 && i < len(anns); i++ {
+		probesTagged := func(tag string, n int) {
+			// data for announced templates, decoded against whatever cache is in force; half of the sets carry
+			// 1..11 octets after the last record (padding, or the beginning of a record that is not there)
+			for i := 0; i < n && i < 3*len(anns); i++ {
 				a := anns[r.Intn(len(anns))]
 				hdr, _ := p.header(r, ver)
 				ds, _ := p.dataSetBytes(r, a.t, 1+r.Intn(2))
-				fmt.Fprintf(w, "%s %s %s\tprobe\n", p.name, hx(a.addr), hx(append(hdr, ds...)))
+				if r.Intn(2) == 0 {
+					pad := make([]byte, 1+r.Intn(11))
+					if r.Intn(3) == 0 {
+						pad = rndBytes(r, len(pad))
+					}
+					ds = append(ds, pad...)
+					copy(ds[2:4], be16(len(ds)))
+				}
+				fmt.Fprintf(w, "%s %s %s\t%s\n", p.name, hx(a.addr), hx(append(hdr, ds...)), tag)
 				emitted++
 			}
 		}
+		probes := func() { probesTagged("probe", 3) }
 		// 2. dump, reload, compare. The file itself is an input: it is produced here, at generation
 		//    time, by the real decoder + Dump on a private cache fed with the same announcements.
 		fmt.Fprintf(w, "cf-list %s\tremember\n", p.name)
@@ -185,7 +195,8 @@ func (p *flowProto) genCacheFile(r *rand.Rand, n int, w *bufio.Writer) {
 		os.RemoveAll(dir)
 		fmt.Fprintf(w, "cf-load %s %s\tsame %s file\n", p.name, docText(file), hx(file))
 		emitted++
-		probes()
+		// the restarted collector must decode data exactly as the one that saved the file would have
+		probesTagged("probe-same", 8)
 		// 3. crash points: every proper prefix of the file (all offsets up to 4000 octets; beyond
 		//    that the first and last 1000 and 2000 sampled ones)
 		var offs []int
@@ -324,6 +335,17 @@ func (p *flowProto) runCacheFile(st *state, line, expect string) (string, string
 	switch f[0] {
 	case p.name:
 		out := p.decodeReal(st, unhx(f[1]), unhx(f[2]), false)
+		if expect == "probe-same" {
+			if saved, ok := st.v["savedcache"]; ok {
+				loaded := st.v[p.name]
+				st.v[p.name] = saved
+				ref := p.decodeReal(st, unhx(f[1]), unhx(f[2]), false)
+				st.v[p.name] = loaded
+				if ref.line() != out.line() {
+					return out.line(), "fail:restart data decodes differently after save and load: with the saved cache " + clip(ref.line(), 200) + " with the loaded cache " + clip(out.line(), 200)
+				}
+			}
+		}
 		return out.line(), "ok"
 	case "cf-list":
 		l, err := listReal(p.cache(st))
@@ -343,6 +365,7 @@ func (p *flowProto) runCacheFile(st *state, line, expect string) (string, string
 		}
 		b, _ := ioutil.ReadFile(path)
 		st.v["file"] = b
+		st.v["savedcache"] = p.cache(st)
 		// the file just written must load back to the cache it was written from
 		verdict := "ok"
 		want, _ := listReal(p.cache(st))
